@@ -7,6 +7,7 @@ structure W where
   target : Nat := 0
   leaves : List Leaf := []
   lpb : Nat := 0
+  blocks : List Nat := []    -- numbers of the blocks the syncer holds
 
 def parseNats (s : String) : Option (List Nat) :=
   if s = "-" then some [] else (s.splitOn ",").mapM (·.toNat?)
@@ -22,8 +23,15 @@ def step (w : W) (ws : List String) : W × String :=
   match ws with
   | ["new"] => ({}, "ok")
   | "l1blk" :: num :: gers => match num.toNat?, gers.mapM (·.toNat?) with
-    | some num, some gs => ({ w with lpb := num, leaves := w.leaves ++ gs.map (fun g => ⟨num, g⟩) }, "ok")
+    | some num, some gs =>
+      ({ w with lpb := num, blocks := w.blocks ++ [num], leaves := w.leaves ++ gs.map (fun g => ⟨num, g⟩) }, "ok")
     | _, _ => (w, "bad-op")
+  -- an L1 reorg from block k on (above every finalized block): the syncer drops the blocks k.. and their leaves
+  | ["l1reorg", k] => match k.toNat? with
+    | some k =>
+      let blocks := w.blocks.filter (· < k)
+      ({ w with blocks := blocks, lpb := blocks.getLast?.getD 0, leaves := reorgLeaves w.leaves k }, "ok")
+    | none => (w, "bad-op")
   | ["tick", fin, finErr, syncErr, isInjErr, injErr, l2] =>
     match fin.toNat?, parseBool finErr, parseBool syncErr, parseBool isInjErr, parseBool injErr, parseNats l2 with
     | some fin, some fe, some se, some ie, some je, some l2 =>
